@@ -180,7 +180,12 @@ psgstrf_thread_init(SuperMatrix *A, SuperMatrix *L, SuperMatrix *U,
        are declared where they are stored/loaded) or monotone hints. */
     SLUV_TSAN_BENIGN(&pxgstrf_shared->tasks_remain, sizeof(pxgstrf_shared->tasks_remain), "tasks_remain");
     SLUV_TSAN_BENIGN(pxgstrf_shared->spin_locks, n * sizeof(int_t), "spin_locks");
-    SLUV_TSAN_BENIGN(pxgstrf_shared->pan_status, (n+1) * sizeof(pan_status_t), "pan_status");
+    /* of a panel's status only the state word is polled without the scheduler lock; the number of unfinished
+       children (ukids) is lock-protected and must stay visible to the race detector */
+    { int_t sluv_i;
+      for (sluv_i = 0; sluv_i <= n; ++sluv_i)
+	  SLUV_TSAN_BENIGN(&pxgstrf_shared->pan_status[sluv_i].state, sizeof(pxgstrf_shared->pan_status[sluv_i].state), "pan_status.state");
+    }
     SLUV_TSAN_BENIGN(ispruned, n * sizeof(int_t), "ispruned");
     SLUV_TSAN_BENIGN(xprune, n * sizeof(int_t), "xprune");
     SLUV_TSAN_BENIGN(perm_r, n * sizeof(int_t), "perm_r");
